@@ -82,7 +82,9 @@ func (c *Cmd) Pos() Pos {
 	default:
 		x := c.Expr.Pos()
 		r := c.Redirs[0].Pos()
-		if x.Before(r) {
+		// a command which consists of redirections only has an
+		// empty simple command
+		if !x.IsZero() && x.Before(r) {
 			return x
 		}
 		return r
